@@ -1,5 +1,6 @@
 """Checks of the document family: C01 C04 C05 C10 C20 (see docfamily.py for the pipeline)."""
 import json
+import os
 import time
 from collections import Counter, OrderedDict
 
@@ -188,6 +189,36 @@ def run(pid, tier, replay_file=None):
             if k not in ("ok", "reject"):
                 add_event(si, "np", '[id |-> @ID@, p |-> "C10", kind |-> %s]' % codec.tla_str(k))
 
+    # ---------------- C01: who checks the reference?  Draft6.tla vs jsonschema's Draft6Validator
+    xref = {}
+    if pid == "C01" and not replay_file:
+        import shutil
+        import subprocess
+        import tempfile
+        if shutil.which("python3-vt"):
+            docs = [[codec.schema_to_json(s["doc"]), s["allowed"]] for s in states
+                    if s["parse"] == "ok" and s.get("allowed")]
+            if tier == "thorough":
+                docs = docs[:: max(1, len(docs) // 60000)]
+            tmp = tempfile.NamedTemporaryFile("w", suffix=".json", delete=False)
+            json.dump({"values": pyvals, "docs": docs}, tmp)
+            tmp.close()
+            try:
+                r = subprocess.run(["python3-vt", os.path.join(os.path.dirname(os.path.abspath(__file__)), "refcheck.py"),
+                                    tmp.name], capture_output=True, text=True, timeout=1800)
+            finally:
+                os.unlink(tmp.name)
+            if r.returncode != 0 or not r.stdout.strip():
+                raise MachineryError("reference cross-check could not run: " + r.stderr[-400:])
+            xref = json.loads(r.stdout.strip().splitlines()[-1])
+            if xref["disagreements"]:
+                raise MachineryError("Draft6.tla disagrees with jsonschema's Draft6Validator (the reference "
+                                     "layer is wrong, no verdict): " + json.dumps(xref["disagreements"][:3])[:600])
+            xref = dict(verdicts_compared=xref["checked"], skipped=xref["skipped"], disagreements=0,
+                        skipped_rule="documents with format/$ref, verdict sets left open by D3, integral floats under 'integer' (D1), cases jsonschema itself fails on")
+        else:
+            xref = dict(skipped="python3-vt (jsonschema) not available")
+
     # ---------------- C01: independent random documents (code -> spec, no prediction involved)
     rand_info = {}
     if pid == "C01" and not replay_file:
@@ -295,7 +326,7 @@ def run(pid, tier, replay_file=None):
         bfs_exhaustive_within_bound=True,
         tlc=dict(bfs=bfs, seeds=seed, sim=sim, trace_validation=adj),
         action_witnesses=witnesses,
-        drift=dict(drift), independent_random_documents=rand_info,
+        drift=dict(drift), independent_random_documents=rand_info, reference_crosscheck=xref,
         drift_events_adjudicated=min(len(ev_index), MAX_EVENTS),
         drift_events_total=len(ev_index),
         model_switches="see spec/Elements.tla, spec/Parser.tla (DeepBool, PlaceholderBySource, ...)",
